@@ -15,6 +15,7 @@ Protocol (one answer per line):
 import CamVerif.Model.GenApi
 import CamVerif.Spec.GenApiSem
 import CamVerif.Model.Reg
+import CamVerif.Model.BitMask
 import CamVerif.Model.Formula
 import Driver.C05Float
 import Driver.Util
@@ -83,73 +84,13 @@ def lossyAux : Nat → Bytes → Bytes
 
 def lossy (bs : Bytes) : Bytes := lossyAux (bs.length + 1) bs
 
-/-! ### `BitMask` arithmetic on the defect-free domain (normalised `lsb ≤ msb < 8·len`,
-and either the full 64-bit field or `msb ≤ 62`, width ≤ 62); anything else answers
-`panic` so that a generator straying outside is noticed.  To be replaced by
-`CamVerif.BitMask` (C02) when it lands. -/
-
-def maskBounds (m : BitMask) (len : Nat) (e : Endian) : Option (Nat × Nat) :=
-  let (l, h) := match m with | .single b => (b, b) | .range l h => (l, h)
-  let bits := len * 8
-  match e with
-  | .le => if l ≤ h && h < bits then some (l, h) else none
-  | .be => if h ≤ l && l < bits then some (bits - l - 1, bits - h - 1) else none
-
-def safeMask (m : BitMask) (len : Nat) (e : Endian) : Option (Nat × Nat) :=
-  match maskBounds m len e with
-  | some (l, h) =>
-    if len == 1 || len == 2 || len == 4 || len == 8 then
-      if (l == 0 && h == 63) || (h ≤ 62 && h - l ≤ 61) then some (l, h) else none
-    else none
-  | none => none
+/-! ### `BitMask` arithmetic: `CamVerif.BitMask` (C02), full domain -/
 
 def u64 (x : Int) : Nat := (x % 2 ^ 64).toNat
-def i64 (n : Nat) : Int := if n % 2 ^ 64 < 2 ^ 63 then (n % 2 ^ 64 : Nat) else (n % 2 ^ 64 : Nat) - 2 ^ 64
 
-def maskMinI (l h : Nat) (s : Sign) : Int :=
-  match s with
-  | .signed => if h - l == 63 then I64_MIN else -(2 ^ (h - l) : Int)
-  | .unsigned => 0
-
-def maskMaxI (l h : Nat) (s : Sign) : Int :=
-  if h - l == 63 then I64_MAX else
-  match s with
-  | .signed => (2 ^ (h - l) : Int) - 1
-  | .unsigned => (2 ^ (h - l + 1) : Int) - 1
-
-def maskBits (l h : Nat) : Nat := if h - l == 63 then 2 ^ 64 - 1 else (2 ^ (h - l + 1) - 1) * 2 ^ l
-
-def applyMask (_p : Profile) (m : BitMask) (v : Int) (len : Nat) (e : Endian) (s : Sign) :
-    Res Err Int :=
-  match safeMask m len e with
-  | none => .panic
-  | some (l, h) =>
-    if h - l == 63 then .ok v else
-    let res : Nat := (u64 v &&& maskBits l h) / 2 ^ l
-    match s with
-    | .signed => if res / 2 ^ (h - l) == 1 then .ok ((res : Int) - 2 ^ (h - l + 1)) else .ok res
-    | .unsigned => .ok res
-
-def maskedValue (_p : Profile) (m : BitMask) (old v : Int) (len : Nat) (e : Endian) (s : Sign) :
-    Res Err Int :=
-  match safeMask m len e with
-  | none => .panic
-  | some (l, h) =>
-    if v > maskMaxI l h s || v < maskMinI l h s then .err .invalidData else
-    let mk := maskBits l h
-    let keep := u64 old &&& (2 ^ 64 - 1 - mk)
-    let ins := (u64 v * 2 ^ l) % 2 ^ 64 &&& mk
-    .ok (i64 (keep ||| ins))
-
-def maskMin (_p : Profile) (m : BitMask) (len : Nat) (e : Endian) (s : Sign) : Res Err Int :=
-  match safeMask m len e with
-  | none => .panic
-  | some (l, h) => .ok (maskMinI l h s)
-
-def maskMax (_p : Profile) (m : BitMask) (len : Nat) (e : Endian) (s : Sign) : Res Err Int :=
-  match safeMask m len e with
-  | none => .panic
-  | some (l, h) => .ok (maskMaxI l h s)
+def bMask : BitMask → CamVerif.BitMask.BitMask
+  | .single b => .singleBit (BitVec.ofNat 64 b)
+  | .range l h => .range (BitVec.ofNat 64 l) (BitVec.ofNat 64 h)
 
 /-! ### The `Ops` instance -/
 
@@ -199,10 +140,15 @@ def ops : Ops Float Ex where
   floatFromSlice bs e := mapRes id regErr (Reg.floatFromSlice bs (rEndian e))
   bytesFromFloat f n e := mapRes id regErr (Reg.bytesFromFloat f n (rEndian e))
   strDecode := lossy
-  applyMask := applyMask
-  maskedValue := maskedValue
-  maskMin := maskMin
-  maskMax := maskMax
+  applyMask p m v len e s := mapRes (·.toInt) regErr
+    (CamVerif.BitMask.BitMask.applyMask p (bMask m) (BitVec.ofInt 64 v) (BitVec.ofNat 64 len) (rEndian e) (rSign s))
+  maskedValue p m old v len e s := mapRes (·.toInt) regErr
+    (CamVerif.BitMask.BitMask.maskedValue p (bMask m) (BitVec.ofInt 64 old) (BitVec.ofInt 64 v)
+      (BitVec.ofNat 64 len) (rEndian e) (rSign s))
+  maskMin p m len e s := mapRes (·.toInt) regErr
+    (CamVerif.BitMask.BitMask.min p (bMask m) (BitVec.ofNat 64 len) (rEndian e) (rSign s))
+  maskMax p m len e s := mapRes (·.toInt) regErr
+    (CamVerif.BitMask.BitMask.max p (bMask m) (BitVec.ofNat 64 len) (rEndian e) (rSign s))
   exprOfInt i := .int (BitVec.ofInt 64 i)
   exprOfFloat f := .float f
   eval := evalFormula
